@@ -101,4 +101,9 @@ theorem inv_quiescent (c : Cfg) (s : St) (h : Inv c s none) (hq : s.ready = []) 
         have := (h.reg p t x hr ht).2.2.1
         rw [term t x ht] at this; cases this
 
+
+/-- a `tick` empties the ready queue: `tickFuel` is enough -/
+theorem tick_empties (c : Cfg) (s : St) (h : Inv c s none) : (applyEvent c s .tick).ready = [] :=
+  drain_empties c _ s h (by simp only [tickFuel]; omega)
+
 end ParamVerif.Async
